@@ -7,6 +7,7 @@ import Model.Store.Search
 import Lemmas.StoreSqlSmallScope
 import Lemmas.StoreSqlFrame
 import Lemmas.StoreSqlMain
+import Lemmas.StoreSqlPit
 import Lemmas.LogTimeAccept
 import Model.Store.FilterSem
 import Lemmas.FilterSem
@@ -753,5 +754,102 @@ example : (exprPieces .accounts false "l".toList (.not (.set false []))).toOptio
 /-- shapes the reading refuses rather than guesses -/
 example : boolParseSql "a is not null" = none ∧ boolParseSql "a and" = none ∧ boolParseSql "(a or b" = none ∧
     boolParseSql "a between 1 and 2" = none := by decide
+
+end C04
+
+/-! ## What a point-in-time read of `moves` computes: the pairing of date column, row order and volumes column
+
+A row of `moves` carries two pairs of totals (`projection_running_volumes`, `projection_effective_volumes`): `post_commit_volumes` — the
+moves of its account and asset not after it BY `seq`, i.e. in insertion order — and `post_commit_effective_volumes` — those not after it
+BY (effective_date, seq).  A read "as of instant `t`" keeps ONE row per account and asset; exactly two ways of choosing it are sound:
+
+* **P1** rows with `insertion_date ≤ t`, the latest by `seq`, column `post_commit_volumes`: the replayed volumes of the entries inserted
+  by `t` (`pit_read_by_insertion_date`; needs what the commander guarantees: log dates never decrease —
+  `pit_read_by_insertion_date_needs_ordered_dates` shows the hypothesis cannot be dropped);
+* **P2** rows with `effective_date ≤ t`, the latest by (effective_date, seq), column `post_commit_effective_volumes`: the replayed volumes
+  by effective date (`pit_read_by_effective_date`, every history).
+
+Mixing them — rows cut on one date, row picked / totals kept in the other order — is wrong as soon as the two orders differ
+(`pit_mixed_read_witness`: one back-dated transaction; the figure is NEITHER replayed figure).  `checks/c04pit.py` reads the triple
+(date column, order, volumes column) off every statement the real store sends and off the schema functions it passes the point in time
+to, and accepts P1 and P2 only. -/
+namespace C04
+open Store StoreSql Sql Schema
+
+/-- **P1**: every history with distinct metadata keys and non-decreasing log dates, every ledger, account, asset and instant `t` with at
+least one move inserted by `t`: among the rows with `insertion_date ≤ t` the one with the greatest `seq` carries, in
+`post_commit_volumes`, the replayed inputs and outputs as of `t` -/
+theorem pit_read_by_insertion_date (logs : List CLog) (hwf : wellFormedHistory logs = true)
+    (hs : logs.Pairwise (fun p q => p.date ≤ q.date)) (l a x : String) (t : Int)
+    (hm : ∃ m ∈ (replay logs l).moves, m.account = a ∧ m.asset = x ∧ m.insertedAt ≤ t) :
+    (col (lastMoveAsOf (project logs) l a x t) (fun r => r.post_commit_volumes) ==
+      volPair (input (replay logs l) (When.insertedBy t) a x) (output (replay logs l) (When.insertedBy t) a x)) = true := by
+  obtain ⟨hinv, hins⟩ := inv_ins_steps logs {} _ (wfHistory_of logs hwf) inv_empty (fun _ => .nil)
+  rw [project_eq]
+  exact clause_pit hinv l a x t (hins l) (replay_moves_sorted logs l hs) hm
+
+/-- **P2** (`projection_effective_volumes` at the instant): among the rows with `effective_date ≤ t` the last by (effective_date, seq)
+carries, in `post_commit_effective_volumes`, the replayed inputs and outputs by effective date `t` — every history -/
+theorem pit_read_by_effective_date (logs : List CLog) (hwf : wellFormedHistory logs = true) (l a x : String) (t : Int)
+    (hm : ∃ m ∈ (replay logs l).moves, m.account = a ∧ m.asset = x ∧ m.effective ≤ t) :
+    (col (lastEffectiveMove (project logs) l a x t) (fun r => r.post_commit_effective_volumes) ==
+      volPair (input (replay logs l) (When.effectiveBy t) a x) (output (replay logs l) (When.effectiveBy t) a x)) = true :=
+  projection_effective_volumes logs hwf l a x t hm
+
+/-- the history of the seeded change c04-r4-1: `tx0` (world → bank 100) dated 500 is inserted at 1000, then `tx1` (bank → u1 10) dated 300
+— BEFORE `tx0` — is inserted at 1001.  Insertion order: tx0, tx1.  Timestamp order: tx1, tx0. -/
+def wPairing : List CLog := [
+  ⟨"l1", 0, 1000, "", .newTx ⟨0, [⟨"world", "bank", "USD", 100⟩], [], 500, ""⟩ []⟩,
+  ⟨"l1", 1, 1001, "", .newTx ⟨1, [⟨"bank", "u1", "USD", 10⟩], [], 300, ""⟩ []⟩ ]
+
+set_option maxRecDepth 100000 in
+/-- **the mixed read is neither figure**: at `t = 400` (after `tx1`'s date, before `tx0`'s, before anything was inserted) the rows of
+`bank` cut on `effective_date ≤ 400` are `tx1`'s row alone; it is the latest by `seq` and its `post_commit_volumes` are the
+insertion-order totals (100, 10), which include `tx0`.  As of the instant 400 nothing had been inserted — (0, 0); by effective date 400
+only `tx1` counts — (0, 10); the two sound reads give exactly those (no row, resp. the row with (0, 10)). -/
+theorem pit_mixed_read_witness :
+    wellFormedHistory wPairing = true ∧ wPairing.Pairwise (fun p q => p.date ≤ q.date) ∧
+    (col (lastMoveDatedBySeq (project wPairing) "l1" "bank" "USD" 400) (fun r => r.post_commit_volumes) == volPair 100 10) = true ∧
+    (input (replay wPairing "l1") (When.insertedBy 400) "bank" "USD", output (replay wPairing "l1") (When.insertedBy 400) "bank" "USD") = (0, 0) ∧
+    (input (replay wPairing "l1") (When.effectiveBy 400) "bank" "USD", output (replay wPairing "l1") (When.effectiveBy 400) "bank" "USD") = (0, 10) ∧
+    (lastMoveAsOf (project wPairing) "l1" "bank" "USD" 400).isNone = true ∧
+    (col (lastEffectiveMove (project wPairing) "l1" "bank" "USD" 400) (fun r => r.post_commit_effective_volumes) == volPair 0 10) = true ∧
+    -- … and between the two insertions (t = 1000: only tx0 is in) the mixed read of `bank` is (100, 10) again, the replay says (100, 0)
+    (col (lastMoveDatedBySeq (project wPairing) "l1" "bank" "USD" 1000) (fun r => r.post_commit_volumes) == volPair 100 10) = true ∧
+    (input (replay wPairing "l1") (When.insertedBy 1000) "bank" "USD", output (replay wPairing "l1") (When.insertedBy 1000) "bank" "USD") = (100, 0) ∧
+    (col (lastMoveAsOf (project wPairing) "l1" "bank" "USD" 1000) (fun r => r.post_commit_volumes) == volPair 100 0) = true := by
+  decide
+
+/-- log dates that DECREASE (never written by the commander): `seq` order is not insertion-date order any more -/
+def wUnordered : List CLog := [
+  ⟨"l", 0, 200, "", .newTx ⟨0, [⟨"world", "a", "USD", 5⟩], [], 200, ""⟩ []⟩,
+  ⟨"l", 1, 100, "", .newTx ⟨1, [⟨"world", "a", "USD", 3⟩], [], 100, ""⟩ []⟩ ]
+
+set_option maxRecDepth 100000 in
+/-- the hypothesis of P1 cannot be dropped: with decreasing log dates the latest row by `seq` among those inserted by 150 carries 8, the
+replay of the entries dated `≤ 150` has 3 -/
+theorem pit_read_by_insertion_date_needs_ordered_dates :
+    wellFormedHistory wUnordered = true ∧
+    (col (lastMoveAsOf (project wUnordered) "l" "a" "USD" 150) (fun r => r.post_commit_volumes) == volPair 8 0) = true ∧
+    input (replay wUnordered "l") (When.insertedBy 150) "a" "USD" = 3 := by
+  decide
+
+/-- **`pit_read_pairing`**: the two sound pairings, for every history, and the witness against mixing them -/
+theorem pit_read_pairing :
+    (∀ (logs : List CLog), wellFormedHistory logs = true → ∀ (l a x : String) (t : Int),
+      (logs.Pairwise (fun p q => p.date ≤ q.date) →
+        (∃ m ∈ (replay logs l).moves, m.account = a ∧ m.asset = x ∧ m.insertedAt ≤ t) →
+        (col (lastMoveAsOf (project logs) l a x t) (fun r => r.post_commit_volumes) ==
+          volPair (input (replay logs l) (When.insertedBy t) a x) (output (replay logs l) (When.insertedBy t) a x)) = true) ∧
+      ((∃ m ∈ (replay logs l).moves, m.account = a ∧ m.asset = x ∧ m.effective ≤ t) →
+        (col (lastEffectiveMove (project logs) l a x t) (fun r => r.post_commit_effective_volumes) ==
+          volPair (input (replay logs l) (When.effectiveBy t) a x) (output (replay logs l) (When.effectiveBy t) a x)) = true)) ∧
+    -- the mixed read (cut on effective_date, latest by seq, post_commit_volumes) on `wPairing` at 400: neither replayed figure
+    (wellFormedHistory wPairing = true ∧ wPairing.Pairwise (fun p q => p.date ≤ q.date) ∧
+      (col (lastMoveDatedBySeq (project wPairing) "l1" "bank" "USD" 400) (fun r => r.post_commit_volumes) == volPair 100 10) = true ∧
+      (input (replay wPairing "l1") (When.insertedBy 400) "bank" "USD", output (replay wPairing "l1") (When.insertedBy 400) "bank" "USD") = (0, 0) ∧
+      (input (replay wPairing "l1") (When.effectiveBy 400) "bank" "USD", output (replay wPairing "l1") (When.effectiveBy 400) "bank" "USD") = (0, 10)) :=
+  ⟨fun logs hwf l a x t => ⟨fun hs hm => pit_read_by_insertion_date logs hwf hs l a x t hm, fun hm => pit_read_by_effective_date logs hwf l a x t hm⟩,
+   pit_mixed_read_witness.1, pit_mixed_read_witness.2.1, pit_mixed_read_witness.2.2.1, pit_mixed_read_witness.2.2.2.1, pit_mixed_read_witness.2.2.2.2.1⟩
 
 end C04
